@@ -8,6 +8,7 @@ also run : the explicit program through the real macro (must equal the oracle as
 The tagged relation's own Vec is a FakeVec (always empty): the relation is observed through ordinary relations
 populated by rules that read it (the property's `observe_at`)."""
 import json
+import os
 
 from . import dl, engine_tie, lib, prog
 
@@ -184,6 +185,7 @@ def observed_rels(p):
 
 def run_cases(cases, tag="c11"):
     """cases: dict(id, prog, inputs, meta).  Adds impl (tagged), impl_explicit, spec, spec_filtered per input."""
+    ctag = "%ss_%d" % (tag, os.getpid())     # concurrent checks must not share Coq case files (the crate is built under a lock)
     jobs = []
     for c in cases:
         p = c["prog"]
@@ -197,7 +199,7 @@ def run_cases(cases, tag="c11"):
         ex, inv = spec_exprs(c["prog"], c["inputs"])
         groups.append(ex)
         invs.append(inv)
-    vals = lib.coq_eval_groups(tag + "s", engine_tie.PRELUDE, groups, timeout=120)
+    vals = lib.coq_eval_groups(ctag, engine_tie.PRELUDE, groups, timeout=120)
     out = []
     for c, vs, inv in zip(cases, vals, invs):
         n = len(c["inputs"])
